@@ -68,9 +68,10 @@ class FnKey:
 
 
 class Write:
-    __slots__ = ("roots", "node", "desc", "via", "attr", "deep")
+    __slots__ = ("roots", "node", "desc", "via", "attr", "deep", "target")
 
-    def __init__(self, roots, node, desc, via=None, attr=None, deep=False):
+    def __init__(self, roots, node, desc, via=None, attr=None, deep=False, target=None):
+        self.target = target  # expression denoting the mutated object (direct writes only)
         self.roots = frozenset(roots)
         self.node = node
         self.desc = desc
@@ -90,6 +91,8 @@ class Effects:
         self._direct_cache = {}
         self._prov = {}
         self.unresolved = []
+        self.allow_memo = False  # drop memo-initialisation stores of getters from the summaries (C18)
+        self.memos = []
         self.by_name = {}
         for m in repo.modules.values():
             for c in m.classes.values():
@@ -328,10 +331,12 @@ class Effects:
                 return True
             if cn.endswith(".__new__"):
                 return True
-            if cn.startswith("np.") or cn.startswith("numpy.") or cn.startswith("math."):
+            if cn.startswith("np.") or cn.startswith("numpy.") or cn.startswith("math.") or cn.startswith("etree."):
+                return True
+            if isinstance(expr.func, ast.Attribute) and expr.func.attr == "copy" and not expr.args:
                 return True
             cands, mode, _r = self.resolve_call(fk, expr)
-            if mode == "exact" and cands:
+            if mode in ("exact", "typed", "exact-unbound") and cands and depth < 4:
                 return all(self._returns_fresh(k) for k in cands)
             return False
         if isinstance(expr, ast.Name):
@@ -348,53 +353,132 @@ class Effects:
         return False
 
     def _returns_fresh(self, k):
+        c = self.__dict__.setdefault("_rf_cache", {})
+        if k in c:
+            return c[k]
+        c[k] = False  # recursion: not fresh
         rets = [n for n in walk_no_nested(k.fn) if isinstance(n, ast.Return) and n.value is not None]
-        return bool(rets) and all(self._fresh(k, r.value, 3) for r in rets)
+        c[k] = bool(rets) and all(self._fresh(k, r.value, 3) for r in rets)
+        return c[k]
 
-    def obj_roots(self, fk, expr):
-        """Parameters the object denoted by `expr` may be (part of); empty set = fresh / unknown-global."""
+    def is_memo_store(self, fk, stmt, target):
+        """`self.S = ..` in a property getter that returns self.S, under a dominating `self.S is None` /
+        `not hasattr(self, 'S')` test: initialisation of an empty memo slot."""
+        if fk.kind != "get" or not isinstance(target, ast.Attribute) or norm(target.value) != "self":
+            return False
+        slot = target.attr
+        names = {slot, slot.lstrip("_")}
+
+        def slot_of(e):
+            return isinstance(e, ast.Attribute) and norm(e.value) == "self" and (e.attr in names or e.attr.lstrip("_") in names)
+
+        if not any(isinstance(r, ast.Return) and r.value is not None and slot_of(r.value) for r in walk_no_nested(fk.fn)):
+            return False
+        cur = stmt
+        parent = fk.mod.parent
+        while cur is not None and cur is not fk.fn:
+            p = parent.get(cur)
+            if isinstance(p, ast.If) and cur in p.body:
+                t = p.test
+                if isinstance(t, ast.Compare) and len(t.ops) == 1 and isinstance(t.ops[0], ast.Is) and isinstance(t.comparators[0], ast.Constant) and t.comparators[0].value is None and slot_of(t.left):
+                    return True
+                if isinstance(t, ast.UnaryOp) and isinstance(t.op, ast.Not) and isinstance(t.operand, ast.Call) and call_name(t.operand) == "hasattr" and len(t.operand.args) == 2 and norm(t.operand.args[0]) == "self" and isinstance(t.operand.args[1], ast.Constant) and str(t.operand.args[1].value).lstrip("_") in {x.lstrip("_") for x in names}:
+                    return True
+            cur = p
+        return False
+
+    ELEMENTWISE_CALLS = {"list", "tuple", "set", "frozenset", "sorted", "reversed", "copy.copy", "copy", "enumerate", "zip", "dict",
+                         "np.array", "np.asarray", "filter", "iter", "next"}
+
+    def obj_roots(self, fk, expr, lvl=0, _active=frozenset()):
+        """Parameters the object denoted by `expr` may be (part of); empty set = fresh / unknown-global.
+        lvl > 0 asks for an element `lvl` levels inside the value (x[0], loop variable over x): a fresh container
+        (display, comprehension, list(..), shallow copy) has no root itself but its elements have the roots of the
+        expressions that were put into it."""
+        while isinstance(expr, ast.Subscript):
+            expr, lvl = expr.value, lvl + 1
         if self._fresh(fk, expr):
-            return set()
+            return self._elem_roots(fk, expr, lvl, _active) if lvl > 0 else set()
         p = self.prov(fk)
-        # a local bound only to fresh values has no root even if built from parameters' data
+        # names that only occur in subscript indices along the object path select an element, they are not the object
+        skip = set()
+        e = expr
+        while isinstance(e, (ast.Subscript, ast.Attribute)):
+            if isinstance(e, ast.Subscript):
+                skip |= {id(x) for x in ast.walk(e.slice)}
+            e = e.value
         roots = set()
         for n in p._names(expr):
+            if id(n) in skip or (hasattr(n, "base") and id(n.base) in skip):
+                continue
             if isinstance(n, ast.Attribute):
                 dotted, base = n
-                roots |= self.obj_roots(fk, base)
+                roots |= self.obj_roots(fk, base, 0, _active)
                 continue
             if id(n) in p.comp_bind:
-                roots |= self.obj_roots(fk, p.comp_bind[id(n)])
+                roots |= self.obj_roots(fk, p.comp_bind[id(n)], (lvl if n is expr else 0) + 1, _active)
                 continue
             ds = p.rd.defs(n.id, n)
             if not ds:
                 continue
             for d in ds:
-                roots |= self._def_obj_roots(fk, d, frozenset())
+                roots |= self._def_obj_roots(fk, d, _active, lvl if n is expr else 0)
         return roots
 
-    def _def_obj_roots(self, fk, d, active):
+    def _elem_roots(self, fk, expr, lvl, active, depth=0):
+        """roots of the elements `lvl` levels inside a fresh container expression"""
+        if lvl <= 0:
+            return self.obj_roots(fk, expr, 0, active)
+        if depth > 8:
+            return set()
+        out = set()
+        if isinstance(expr, (ast.List, ast.Tuple, ast.Set)):
+            for e in expr.elts:
+                if isinstance(e, ast.Starred):
+                    out |= self.obj_roots(fk, e.value, lvl, active)
+                else:
+                    out |= self.obj_roots(fk, e, lvl - 1, active)
+        elif isinstance(expr, ast.Dict):
+            for e in expr.values:
+                if e is not None:
+                    out |= self.obj_roots(fk, e, lvl - 1, active)
+        elif isinstance(expr, (ast.ListComp, ast.SetComp, ast.GeneratorExp)):
+            out |= self.obj_roots(fk, expr.elt, lvl - 1, active)
+        elif isinstance(expr, ast.DictComp):
+            out |= self.obj_roots(fk, expr.value, lvl - 1, active)
+        elif isinstance(expr, ast.BinOp):
+            out |= self.obj_roots(fk, expr.left, lvl, active) | self.obj_roots(fk, expr.right, lvl, active)
+        elif isinstance(expr, ast.IfExp):
+            out |= self.obj_roots(fk, expr.body, lvl, active) | self.obj_roots(fk, expr.orelse, lvl, active)
+        elif isinstance(expr, ast.Call):
+            cn = call_name(expr) or ""
+            if cn in self.ELEMENTWISE_CALLS:
+                for a in expr.args:
+                    out |= self.obj_roots(fk, a, lvl + (0 if cn not in ("zip", "enumerate") else -1) if cn not in ("zip", "enumerate") else lvl, active)
+            elif isinstance(expr.func, ast.Attribute) and expr.func.attr in ("copy", "values", "items", "keys") and not expr.args:
+                out |= self.obj_roots(fk, expr.func.value, lvl, active)
+        elif isinstance(expr, ast.Name):
+            for d in self.prov(fk).rd.defs(expr.id, expr):
+                out |= self._def_obj_roots(fk, d, active, lvl)
+        return out
+
+    def _def_obj_roots(self, fk, d, active, lvl=0):
         if d.kind == "param":
             return {d.name}
         if d.kind in ("import", "def", "except") or d.node is None:
             return set()
-        if id(d) in active:
+        key = (id(d), lvl)
+        if key in active or lvl > 6:
             return set()
-        active = active | {id(d)}
-        if self._fresh(fk, d.node):
-            return set()
-        p = self.prov(fk)
-        out = set()
-        for n in p._names(d.node):
-            if isinstance(n, ast.Attribute):
-                dotted, base = n
-                n = base
-            if id(n) in p.comp_bind:
-                out |= self.obj_roots(fk, p.comp_bind[id(n)])
-                continue
-            for d2 in p.rd.defs(n.id, d.stmt):
-                out |= self._def_obj_roots(fk, d2, active)
-        return out
+        active = active | {key}
+        if d.kind == "for":
+            lvl += 1
+        elif d.kind == "unpack":
+            # tuple target of an assignment / loop: an element of the value (of the iterated elements)
+            lvl += 1 if isinstance(d.stmt, (ast.Assign, ast.AnnAssign, ast.With)) else 2
+        elif d.kind not in ("assign", "with"):
+            lvl = 0
+        return self.obj_roots(fk, d.node, lvl, active)
 
     def _direct(self, fk):
         """(direct writes, call sites) of one function; call sites are resolved lazily at propagation."""
@@ -402,11 +486,14 @@ class Effects:
             return self._direct_cache[fk]
         writes, calls = [], []
 
-        def add_store(target, node, what):
+        def add_store(target, node, what, full=None):
             roots = self.obj_roots(fk, target)
             if roots:
+                if self.allow_memo and full is not None and self.is_memo_store(fk, node, full):
+                    self.memos.append("%s: %s" % (fk.name, what))
+                    return
                 ch = attr_chain(target)
-                writes.append(Write(roots, node, what, attr=(ch[1] if ch and len(ch) > 1 else None)))
+                writes.append(Write(roots, node, what, attr=(ch[1] if ch and len(ch) > 1 else None), target=target))
 
         for n in walk_no_nested(fk.fn):
             if isinstance(n, (ast.Assign, ast.AugAssign, ast.AnnAssign, ast.Delete, ast.For)):
@@ -434,7 +521,7 @@ class Effects:
                                     handled = True
                                     calls.append(([sk], "exact", t.value, [getattr(n, "value", None)], {}, n, "%s = .. (setter)" % norm(t)))
                         if not handled:
-                            add_store(t.value, n, "%s %s" % ("del" if isinstance(n, ast.Delete) else "store", norm(t)))
+                            add_store(t.value, n, "%s %s" % ("del" if isinstance(n, ast.Delete) else "store", norm(t)), full=t)
                     elif isinstance(t, ast.Subscript):
                         add_store(t.value, n, "%s %s" % ("del" if isinstance(n, ast.Delete) else "store", norm(t)))
             elif isinstance(n, ast.Call):
@@ -520,6 +607,23 @@ class Effects:
         for k in reach:
             self._writes[k] = cur[k]
         return self._writes[fk]
+
+    def bind(self, callee, self_expr, args, kwargs, skip_self=False):
+        """callee parameter -> argument expression of the call"""
+        cparams = [a.arg for a in callee.fn.args.posonlyargs + callee.fn.args.args]
+        decos = [ast.unparse(d) for d in callee.fn.decorator_list]
+        bind = {}
+        rest = list(cparams)
+        if callee.cls is not None and "staticmethod" not in decos and rest:
+            first = rest.pop(0)
+            if "classmethod" not in decos and self_expr is not None and not skip_self:
+                bind[first] = self_expr
+        for i, a in enumerate(args):
+            if a is not None and i < len(rest):
+                bind[rest[i]] = a
+        for k, v in kwargs.items():
+            bind[k] = v
+        return bind
 
     def _induced(self, fk, callee, cw, self_expr, args, kwargs, node, desc, skip_self):
         out = []
